@@ -245,7 +245,15 @@ def evaluate(case, out):
         except Exception as e:  # noqa
             out.lib_exception("alpha-form", e)
             return
+        first_boundary = next((j for j, (_w, tag) in enumerate(ref) if tag == "mu-at-boundary"), None)
         for j, (want, tag) in enumerate(ref):
+            if j == first_boundary and not (math.isnan(hist[j]) and math.isnan(h2[j])):
+                # the draw at which the null mean reaches 0 or u: the two forms still report the same value there
+                # (what either reports afterwards is not defined by the products and is not compared)
+                out.cls("alpha-vs-betting-at-the-boundary-draw")
+                if not out.expect(close(hist[j], h2[j]) or abs(hist[j] - h2[j]) <= 1e-9, "alpha-vs-betting:at-boundary-draw", lambda: (j, hist[j], h2[j])):
+                    break
+                continue
             if want is None or isinstance(want, tuple) or tag != "product":
                 continue
             if not out.expect(close(hist[j], h2[j]) or abs(hist[j] - h2[j]) <= 1e-9, "alpha-vs-betting", lambda: (j, hist[j], h2[j])):
